@@ -329,7 +329,7 @@ func init() {
 		return res
 	}
 	reg([]string{"compress/lzw.NewReader", "compress/lzw.NewWriter", "bytes.NewReader", "bufio.NewReader", "bufio.NewReaderSize",
-		"github.com/hashicorp/go-msgpack/v2/codec.NewDecoder", "github.com/hashicorp/go-msgpack/v2/codec.NewEncoder", "github.com/hashicorp/go-msgpack/v2/codec.NewDecoderBytes",
+		"github.com/hashicorp/go-msgpack/v2/codec.NewDecoder", "github.com/hashicorp/go-msgpack/v2/codec.NewDecoderBytes",
 		"crypto/aes.NewCipher", "crypto/cipher.NewGCM", "container/list.New", "log.New", "strings.NewReader", "io.LimitReader", "io.MultiReader"}, nil, nonNil)
 	reg([]string{"(*bytes.Reader).Len", "(*container/list.List).Len"}, nil, func(e *Eng, fr *Frame, c *ssa.CallCommon, args []*Val, st *State, g string, pos token.Pos) *Val {
 		e.nilCheck(fr, nil, args[0].T, "recv:"+descr(c.Args[0], 0), pos, g)
@@ -423,6 +423,34 @@ func init() {
 		cur := e.get(st, BL, "(Array Int Int)")
 		e.set(st, BL, "(Array Int Int)", ite(isBufWriter(e, args[0]), sto(cur, b, sx("+", sel(cur, b), n.T)), cur), "io.Copy into buffer")
 		return &Val{Typ: c.Signature().Results(), Tup: []*Val{n, errv}, KnownLen: -1}
+	})
+
+	// ---- msgpack codec: an encoder remembers its writer (ghost region ENCW); Encode on a *bytes.Buffer
+	// writer grows it by at least 1 + 2*fields bytes for a struct (fixmap header, >=1 byte per key and per value) ----
+	reg([]string{"github.com/hashicorp/go-msgpack/v2/codec.NewEncoder"}, []string{frRegion, "ENCW"}, func(e *Eng, fr *Frame, c *ssa.CallCommon, args []*Val, st *State, g string, pos token.Pos) *Val {
+		ref := e.alloc(st, "codec.NewEncoder")
+		e.setStore(st, "ENCW", "(Array Int Int)", ref, args[0].T, "encoder writer")
+		return &Val{T: ref, Typ: c.Signature().Results().At(0).Type(), KnownLen: -1}
+	})
+	reg([]string{"(*github.com/hashicorp/go-msgpack/v2/codec.Encoder).Encode"}, []string{"BL"}, func(e *Eng, fr *Frame, c *ssa.CallCommon, args []*Val, st *State, g string, pos token.Pos) *Val {
+		e.nilCheck(fr, nil, args[0].T, "encoder:"+descr(c.Args[0], 0), pos, g)
+		minBytes := 1
+		if mi, ok := c.Args[1].(*ssa.MakeInterface); ok {
+			if pt := derefType(mi.X.Type()); pt != nil && structOf(pt) != nil {
+				minBytes = 1 + 2*structOf(pt).NumFields()
+			} else if structOf(mi.X.Type()) != nil {
+				minBytes = 1 + 2*structOf(mi.X.Type()).NumFields()
+			}
+		}
+		errv := e.havocVal(st, "encerr", c.Signature().Results().At(0).Type())
+		n := e.havocVal(st, "encbytes", types.Typ[types.Int])
+		e.sc.assume(and(sx(">=", n.T, "0"), implies(eq(errv.T, "0"), sx(">=", n.T, fmt.Sprint(minBytes)))), "msgpack Encode writes at least a map header and one byte per key and value")
+		w := sel(e.get(st, "ENCW", "(Array Int Int)"), args[0].T)
+		wv := &Val{T: w, KnownLen: -1}
+		b := bufOfWriter(e, wv)
+		cur := e.get(st, "BL", "(Array Int Int)")
+		e.set(st, "BL", "(Array Int Int)", ite(isBufWriter(e, wv), sto(cur, b, sx("+", sel(cur, b), n.T)), cur), "Encode into buffer")
+		return errv
 	})
 
 	// ---- container/list: opaque; element values are constrained by an axiom in the contracts file ----
@@ -520,6 +548,16 @@ func init() {
 		res := e.havocResults(c, st)
 		e.sc.assume(eq(sx("s_len", res.T), sx("+", sx("s_len", args[0].T), sx("s_len", args[2].T), "16")), "AEAD.Seal: output is dst plus plaintext plus a 16-byte tag")
 		return res
+	}
+	dial := func(e *Eng, fr *Frame, c *ssa.CallCommon, recv *Val, args []*Val, st *State, g string, pos token.Pos) *Val {
+		res := e.havocResults(c, st)
+		e.sc.assume(implies(eq(res.Tup[1].T, "0"), not(eq(res.Tup[0].T, "0"))), "Transport contract: a successful dial returns a connection")
+		return res
+	}
+	ifaceHandlers["NodeAwareTransport.DialAddressTimeout"] = dial
+	ifaceHandlers["Transport.DialTimeout"] = dial
+	ifaceHandlers["net.Conn.RemoteAddr"] = func(e *Eng, fr *Frame, c *ssa.CallCommon, recv *Val, args []*Val, st *State, g string, pos token.Pos) *Val {
+		return e.havocResults(c, st)
 	}
 	ifaceHandlers["net.Addr.String"] = func(e *Eng, fr *Frame, c *ssa.CallCommon, recv *Val, args []*Val, st *State, g string, pos token.Pos) *Val {
 		return e.havocResults(c, st)
